@@ -14,6 +14,7 @@ import (
 	"fmt"
 	"io"
 	"math/rand"
+	netmail "net/mail"
 	"os"
 	"path/filepath"
 	"sort"
@@ -308,10 +309,13 @@ func (t *toggleSeeker) Read(p []byte) (int, error) {
 }
 func (t *toggleSeeker) Seek(o int64, w int) (int64, error) { return t.r.Seek(o, w) }
 
-// failSeeker delivers data, then fails.
+// failSeeker delivers data, then fails: in Read with err (errProducer by default), or - when
+// seekFails is set - it ends with a regular io.EOF and fails when it is rewound.
 type failSeeker struct {
-	data []byte
-	pos  int
+	data      []byte
+	pos       int
+	err       error
+	seekFails bool
 }
 
 func (f *failSeeker) Read(p []byte) (int, error) {
@@ -320,9 +324,22 @@ func (f *failSeeker) Read(p []byte) (int, error) {
 		f.pos += n
 		return n, nil
 	}
+	if f.seekFails {
+		return 0, io.EOF
+	}
+	if f.err != nil {
+		return 0, f.err
+	}
 	return 0, errProducer
 }
-func (f *failSeeker) Seek(o int64, w int) (int64, error) { f.pos = 0; return 0, nil }
+
+func (f *failSeeker) Seek(o int64, w int) (int64, error) {
+	if f.seekFails {
+		return 0, errProducer
+	}
+	f.pos = 0
+	return 0, nil
+}
 
 // Slot is the expectation for one leaf.
 type Slot struct {
@@ -477,6 +494,9 @@ func Build(p Prog, seed int64, failSlot int, failWhen string, tmpdir string) (*B
 				}
 				if err == nil && fail {
 					err = errProducer
+					if when == "eofplain" {
+						err = fmt.Errorf("source ended early: %w", io.EOF)
+					}
 				}
 				return n, err
 			}
@@ -531,7 +551,7 @@ func Build(p Prog, seed int64, failSlot int, failWhen string, tmpdir string) (*B
 		if fs.Cid != "" {
 			cid = Text(fs.Cid, rng)
 			fo = append(fo, mail.WithFileContentID(cid))
-			cid = NormWS("<" + cid + ">")
+			cid = NormWS(cid) // written as given (the caller supplies the angle brackets)
 		}
 		fail := slot == failSlot
 		src := fs.Src
@@ -545,7 +565,15 @@ func Build(p Prog, seed int64, failSlot int, failWhen string, tmpdir string) (*B
 			if failWhen == "before" {
 				data = nil
 			}
-			rs := &failSeeker{data: data}
+			rs := &failSeeker{data: data, seekFails: failWhen == "seek"}
+			if failWhen == "eof" { // a source that ends early reports an error wrapping io.EOF
+				rs.data = data[:len(data)/2]
+				rs.err = fmt.Errorf("source truncated: %w", io.ErrUnexpectedEOF)
+			}
+			if failWhen == "eofplain" {
+				rs.data = data[:len(data)/2]
+				rs.err = fmt.Errorf("source ended early: %w", io.EOF)
+			}
 			if embed {
 				m.EmbedReadSeeker(name, rs, fo...)
 			} else {
@@ -685,6 +713,15 @@ func canonLF(b []byte) []byte {
 // blank, leading and trailing blanks are ignored.
 func NormWS(s string) string { return strings.Join(strings.Fields(s), " ") }
 
+func isPlainASCII(s string) bool {
+	for i := 0; i < len(s); i++ {
+		if s[i] < 32 && s[i] != '\t' || s[i] > 126 {
+			return false
+		}
+	}
+	return !strings.Contains(s, "=?")
+}
+
 func firstDiff(a, b []byte) int {
 	n := len(a)
 	if len(b) < n {
@@ -791,22 +828,28 @@ func Analyse(r *rec.Recorder, out []byte, b *Built) {
 		if err != nil {
 			got = raw
 		}
-		if sub == "name" { // display name of an address: the phrase before "<"
-			k := strings.LastIndex(got, "<")
-			if field == "To" { // the second address of the To list
-				parts := strings.Split(got, ", ")
-				got = parts[len(parts)-1]
-				k = strings.LastIndex(got, "<")
-			}
-			if k >= 0 {
-				got = got[:k]
-			}
-			got = strings.TrimSpace(got)
-			if strings.HasPrefix(got, `"`) && strings.HasSuffix(got, `"`) && len(got) >= 2 {
-				got = strings.ReplaceAll(strings.ReplaceAll(got[1:len(got)-1], `\"`, `"`), `\\`, `\`)
+		if sub == "name" { // display name of the address with the mailbox this setter used (read back with net/mail)
+			box := map[string]string{"From": "sender@from.test", "To": "second@to.test",
+				"Disposition-Notification-To": "mdn@from.test"}[field]
+			got = "<no such address>"
+			if list, perr := netmail.ParseAddressList(raw); perr != nil {
+				got = "<unparsable address list: " + perr.Error() + ">"
+			} else {
+				for _, a := range list {
+					if a.Address == box {
+						got = a.Name
+					}
+				}
 			}
 		}
-		r.Emit("hdr", "name", name, "count", n, "want", NormWS(want), "got", NormWS(got))
+		// C18: a folded field unfolds (CRLF before WSP removed) to the value that was set. The comparison is
+		// exact except for blanks right after the colon, for values that went out as plain ASCII; values that
+		// needed RFC 2047 encoding are compared whitespace-normalised (6.2: blanks between encoded words vanish).
+		wantx, gotx := NormWS(want), NormWS(got)
+		if isPlainASCII(want) && sub == "" {
+			wantx, gotx = strings.TrimLeft(want, " \t"), strings.TrimLeft(got, " \t")
+		}
+		r.Emit("hdr", "name", name, "count", n, "want", NormWS(want), "got", NormWS(got), "wantx", wantx, "gotx", gotx)
 	}
 }
 
